@@ -15,6 +15,9 @@ class Person:
         self.name = 'alice'
 
 
+GV = 'from-the-module'
+
+
 def greet(a):
     name = 'bob'
     items = [1, 2, 3]
@@ -29,8 +32,8 @@ TEXT = {'lit_a': 'a', 'lit_space': ' ', 'lit_unicode': 'é中', 'lit_percent': '
         'f_percent': '{query}', 'f_zero': '{zero}', 'f_empty': '{empty}',
         'f_local': '{name}', 'f_attr': '{person.name}', 'f_index': '{items[1]}', 'f_call': '{len(items)}',
         'f_missing': '{nope}', 'f_raises': '{a // 0}',
-        'f_neq': '{a != 9}', 'f_colon': '{(lambda q: q + 1)(a)}'}
-VALUE = {'f_neq': 'False', 'f_colon': '10', 'f_local': 'bob', 'f_attr': 'alice', 'f_index': '2', 'f_call': '3', 'f_percent': "LIKE 'a%s' %d", 'f_zero': '0',
+        'f_neq': '{a != 9}', 'f_colon': '{(lambda q: q + 1)(a)}', 'f_global': '{GV}'}
+VALUE = {'f_neq': 'False', 'f_colon': '10', 'f_global': 'from-the-module', 'f_local': 'bob', 'f_attr': 'alice', 'f_index': '2', 'f_call': '3', 'f_percent': "LIKE 'a%s' %d", 'f_zero': '0',
          'f_empty': ''}
 ERR_HINT = {'f_missing': 'nope', 'f_raises': 'zero'}
 EXPR = {k: v[1:-1] for k, v in TEXT.items() if k.startswith('f_')}
